@@ -6,6 +6,18 @@ ALL = ["C%02d" % i for i in range(1, 21)]
 
 # id -> (category, technique, level text, level note, design ref)
 CHECKS = {
+ "C14": ("exploration", "runtime monitor in a chroot jail: before/after snapshot (all fields incl. inode and ctime) of sentinels outside both roots, provenance of every byte in the destination, fate of destination symlinks, landing path compared with an independent chroot-style resolver",
+         "Generated (source tree, destination tree, src path, dst path) with symlinks (absolute, '..'-laden, dangling, looping) to outside sentinels at every component and leaf x {follow-links, wildcards, always-replace, dir-contents, chown/utime/mode}. Held on the executions observed; known finding: lexical join in the dependency's RootPath.",
+         "Trusts chroot(2), the snapshot walker and the chroot-style resolver in copyB_common.go; no concurrent modification.", "DESIGN.md §5 C14"),
+ "C15": ("exploration", "runtime monitor: destination snapshot vs an executable overlay model (7 calibrated rules) incl. expected-error outcomes, obstacle preservation and a repeated copy for idempotence",
+         "Source/destination pairs over a shared 6-name universe so that every type pair collides x {dir-contents, always-replace, wildcards, trailing separator, nested not-yet-existing dst}; all 49 (src type, dst type, outcome) classes are observed. Where the statement is silent every outcome is accepted and counted. Held on the executions observed.",
+         "Trusts the overlay model in c15.go (calibrated against the repository's copy tests).", "DESIGN.md §5 C15"),
+ "C17": ("exploration", "runtime monitor: archive/tar reader over WriteTar's output compared member by member with the independently predicted view; independent round trip through GNU tar extraction and snapshot comparison",
+         "Generated trees (as C01, names >100 bytes, non-ASCII) x {unfiltered, include, exclude, both} x {on-disk FS, synthetic FS, SubDirFS}. Views affected by K1 are not judged. Held on the executions observed.",
+         "Trusts archive/tar, GNU tar 1.34 and the snapshot walker; mtime to the second.", "DESIGN.md §5 C17"),
+ "C18": ("exploration", "runtime differential monitor: FollowLinks result vs an independent chroot-style resolver (40-link limit) for coverage, order, prefix-freeness and root collapse; Walk-call step bound for termination; end-to-end transfer with FollowPaths and re-resolution in the copy",
+         "Link graphs (chains incl. 38-43 links, cycles, self loops, growing cycles, '..' beyond the root, dangling, absolute) x request lists (shared prefixes, wildcards, missing paths). Termination decided by a step bound on FS.Walk calls, not by time. Held on the executions observed; known finding: lexically cleaned link targets.",
+         "Trusts the reference resolver in internal/refs/resolver.go; middle-component wildcards: only termination and shape.", "DESIGN.md §5 C18"),
  "C20": ("exploration", "runtime monitor: value round trips across the hand-optimised codec and the generic protobuf runtime in both directions, framing through util.NewProtoStream with fragmenting readers, aliasing monitor (read buffers poisoned after each RecvMsg), panic capture and allocation accounting (runtime.MemStats) on arbitrary inputs; Go native fuzz targets as an extra workload generator",
          "Generated and mutated Stat/Packet values, packet sequences read back under 60 fragmentations incl. 1-byte reads, empty and >32 KiB packets, cut streams, arbitrary byte strings and frame streams (incl. a 4 GiB announcement in a memory-limited sub-process). Held on the executions observed; known finding: invalid UTF-8 names are rejected by the generic runtime.",
          "Trusts the independent field-wise comparator and reference framer in internal/codec; allocation measured single-threaded per child with repeat-and-minimum to damp GC noise.", "DESIGN.md §5 C20"),
